@@ -11,6 +11,7 @@
 -/
 import Umya.Thm.C04Fix
 import Umya.Lemmas.ResaveEdit
+import Umya.Lemmas.ResaveStrings
 import Umya.Thm.C05
 namespace Umya.Thm.C04
 open Umya.Resave
@@ -54,28 +55,36 @@ theorem onIdx_self {α : Type} (l : List α) (i : Nat) (f : α → α) (a : α) 
 /-- the row record of row `r` exists afterwards (`get_row_dimension_mut`) -/
 def SheetP.withRow (s : SheetP Z) (r x : Nat) : SheetP Z := { s with rows := ensureRow r x s.rows }
 
+/-- the column record of column `k` exists afterwards (`get_column_dimension_by_number_mut`) -/
+def SheetP.withCol (s : SheetP Z) (k y : Nat) : SheetP Z := { s with cols := ensureCol k y s.cols }
+
+theorem normSheet_withCol (s : SheetP Z) (k y : Nat) : normSheet (s.withCol k y) = (normSheet s).withCol k y := by
+  simp only [normSheet, SheetP.withCol, ensureCol_map_norm]
+
 theorem normSheet_withRow (s : SheetP Z) (r x : Nat) : normSheet (s.withRow r x) = (normSheet s).withRow r x := by
   simp only [normSheet, SheetP.withRow, ensureRow_map_norm]
 
 /-- `get_cell_mut` at an empty position of sheet `i`, then a setter: the new cell `c` is in the sheet's collection
-    (after the first `n` cells: any place), and row `c.row` has a record (`x` = the xf index of the default style) -/
-def BookP.createCell (b : BookP F Z) (i n : Nat) (c : Cell F.Num) (x : Nat) : BookP F Z :=
-  { b with cells := onSheet F b.cells i (createSheet F n c), sheets := onIdx b.sheets i (fun s => s.withRow c.row x) }
+    (after the first `n` cells: any place), and row `c.row` and column `c.col` have a record (`x`, `y` = the xf indices
+    given to the default style of the new row / column record) -/
+def BookP.createCell (b : BookP F Z) (i n : Nat) (c : Cell F.Num) (x y : Nat) : BookP F Z :=
+  { b with cells := onSheet F b.cells i (createSheet F n c),
+           sheets := onIdx b.sheets i (fun s => (s.withRow c.row x).withCol c.col y) }
 
 /-- `remove_cell` on sheet `i` (the row record stays) -/
 def BookP.deleteCell (b : BookP F Z) (i : Nat) (k : Nat × Nat) : BookP F Z :=
   { b with cells := onSheet F b.cells i (deleteSheet F k) }
 
-theorem normBook_createCell (b : BookP F Z) (i n : Nat) (c : Cell F.Num) (x : Nat) (s : List (Cell F.Num))
+theorem normBook_createCell (b : BookP F Z) (i n : Nat) (c : Cell F.Num) (x y : Nat) (s : List (Cell F.Num))
     (hs' : b.cells[i]? = some s) (hc : blankUnstyled F c = false) :
-    normBook F (b.createCell F i n c x) = (normBook F b).createCell F i (keptBefore F s n) (Cell.resolved F c) x := by
+    normBook F (b.createCell F i n c x y) = (normBook F b).createCell F i (keptBefore F s n) (Cell.resolved F c) x y := by
   have h1 : normalize F (onSheet F b.cells i (createSheet F n c))
       = onSheet F (normalize F b.cells) i (createSheet F (keptBefore F s n) (Cell.resolved F c)) :=
     normalize_onSheet F b.cells i _ _ (fun s0 h0 => by
       rw [hs'] at h0; cases h0; exact normS_createSheet F n c s hc)
-  have h2 : (onIdx b.sheets i (fun s => s.withRow c.row x)).map normSheet
-      = onIdx (b.sheets.map normSheet) i (fun s => s.withRow c.row x) :=
-    map_onIdx _ _ _ _ _ (fun a => normSheet_withRow a c.row x)
+  have h2 : (onIdx b.sheets i (fun s => (s.withRow c.row x).withCol c.col y)).map normSheet
+      = onIdx (b.sheets.map normSheet) i (fun s => (s.withRow c.row x).withCol c.col y) :=
+    map_onIdx _ _ _ _ _ (fun a => by rw [normSheet_withCol, normSheet_withRow])
   simp only [normBook, BookP.createCell, h1, h2]
   rfl
 
@@ -91,26 +100,30 @@ theorem normBook_deleteCell (b : BookP F Z) (i : Nat) (k : Nat × Nat) :
     record ensured (1, 2).  Consequently (3) every other sheet — its cells and its records — is untouched; (4) on
     sheet `i` exactly one cell more is read, the new coordinate reads the new cell, every other coordinate reads
     what it read without the edit; (5) every row record that was there is there unchanged, at most one is added (a
-    default one for the new cell's row), column records and every other annotation of the sheet are unchanged;
+    default one for the new cell's row), the same for the column records (at most one default record, for the new
+    cell's column, pushed at the end), every other annotation of the sheet is unchanged;
     (6) styles, names, protection: unchanged.  (The used range / `<dimension ref>` follows the cell list.) -/
-theorem C04_edit_local_book_create (b : BookP F Z) (i n : Nat) (c : Cell F.Num) (x : Nat) (s : List (Cell F.Num))
+theorem C04_edit_local_book_create (b : BookP F Z) (i n : Nat) (c : Cell F.Num) (x y : Nat) (s : List (Cell F.Num))
     (hs' : b.cells[i]? = some s) (hc : blankUnstyled F c = false) (hnew : lookup F s (c.row, c.col) = none)
-    (h : BookP.WF cf hz hs F hF e b) (h' : BookP.WF cf hz hs F hF e (b.createCell F i n c x)) :
-    resave cf hz hs F hF e (b.createCell F i n c x)
-      = (resave cf hz hs F hF e b).map (fun g => g.createCell F i (keptBefore F s n) (Cell.resolved F c) x) ∧
-    normBook F (b.createCell F i n c x) = (normBook F b).createCell F i (keptBefore F s n) (Cell.resolved F c) x ∧
-    (∀ i', i' ≠ i → (normBook F (b.createCell F i n c x)).cells[i']? = (normBook F b).cells[i']? ∧
-      (normBook F (b.createCell F i n c x)).sheets[i']? = (normBook F b).sheets[i']?) ∧
-    (∃ s1, (normBook F (b.createCell F i n c x)).cells[i]? = some s1 ∧ (normBook F b).cells[i]? = some (normS F s) ∧
+    (h : BookP.WF cf hz hs F hF e b) (h' : BookP.WF cf hz hs F hF e (b.createCell F i n c x y)) :
+    resave cf hz hs F hF e (b.createCell F i n c x y)
+      = (resave cf hz hs F hF e b).map (fun g => g.createCell F i (keptBefore F s n) (Cell.resolved F c) x y) ∧
+    normBook F (b.createCell F i n c x y) = (normBook F b).createCell F i (keptBefore F s n) (Cell.resolved F c) x y ∧
+    (∀ i', i' ≠ i → (normBook F (b.createCell F i n c x y)).cells[i']? = (normBook F b).cells[i']? ∧
+      (normBook F (b.createCell F i n c x y)).sheets[i']? = (normBook F b).sheets[i']?) ∧
+    (∃ s1, (normBook F (b.createCell F i n c x y)).cells[i]? = some s1 ∧ (normBook F b).cells[i]? = some (normS F s) ∧
       s1.length = (normS F s).length + 1 ∧ lookup F s1 (c.row, c.col) = some (Cell.resolved F c) ∧
       ∀ k, k ≠ (c.row, c.col) → lookup F s1 k = lookup F (normS F s) k) ∧
     (∀ sh, (normBook F b).sheets[i]? = some sh →
-      (normBook F (b.createCell F i n c x)).sheets[i]? = some (sh.withRow c.row x) ∧
-      (∀ (j : Nat) (p : Umya.StyleCodec.Row × Nat), sh.rows[j]? = some p → (sh.withRow c.row x).rows[j]? = some p) ∧
-      (sh.withRow c.row x).rows.length ≤ sh.rows.length + 1 ∧
-      { sh.withRow c.row x with rows := sh.rows } = sh) ∧
-    { normBook F (b.createCell F i n c x) with cells := (normBook F b).cells, sheets := (normBook F b).sheets } = normBook F b := by
-  have e0 := normBook_createCell F b i n c x s hs' hc
+      (normBook F (b.createCell F i n c x y)).sheets[i]? = some ((sh.withRow c.row x).withCol c.col y) ∧
+      (∀ (j : Nat) (p : Umya.StyleCodec.Row × Nat), sh.rows[j]? = some p → ((sh.withRow c.row x).withCol c.col y).rows[j]? = some p) ∧
+      ((sh.withRow c.row x).withCol c.col y).rows.length ≤ sh.rows.length + 1 ∧
+      (∀ (j : Nat) (p : Umya.StyleCodec.Col × Nat × Nat × Nat), sh.cols[j]? = some p →
+        ((sh.withRow c.row x).withCol c.col y).cols[j]? = some p) ∧
+      ((sh.withRow c.row x).withCol c.col y).cols.length ≤ sh.cols.length + 1 ∧
+      { (sh.withRow c.row x).withCol c.col y with rows := sh.rows, cols := sh.cols } = sh) ∧
+    { normBook F (b.createCell F i n c x y) with cells := (normBook F b).cells, sheets := (normBook F b).sheets } = normBook F b := by
+  have e0 := normBook_createCell F b i n c x y s hs' hc
   have hn : (normBook F b).cells[i]? = some (normS F s) := by
     show (normalize F b.cells)[i]? = _
     simp [normalize_eq_map, hs']
@@ -127,10 +140,13 @@ theorem C04_edit_local_book_create (b : BookP F Z) (i n : Nat) (c : Cell F.Num) 
     · intro k hk
       exact lookup_createSheet_other F _ _ _ k (fun h => hk h.symm)
   · intro sh hsh
-    refine ⟨?_, fun j p hj => ensureRow_old _ _ _ j p hj, ?_, rfl⟩
+    refine ⟨?_, fun j p hj => ensureRow_old _ _ _ j p hj, ?_, fun j p hj => ensureCol_old _ _ _ j p hj, ?_, rfl⟩
     · rw [e0]; exact onIdx_self _ i _ sh hsh
     · show (ensureRow c.row x sh.rows).length ≤ _
       unfold ensureRow
+      split <;> simp
+    · show (ensureCol c.col y sh.cols).length ≤ _
+      unfold ensureCol
       split <;> simp
   · rw [e0]; rfl
 
@@ -173,6 +189,106 @@ theorem C04_edit_local_book_blank (b : BookP F Z) (i : Nat) (k : Nat × Nat) (f 
   exact ⟨h2, h2.trans (normBook_deleteCell F b i k)⟩
 
 end Edit
+
+/-! ## the shared-string table under a creating edit -/
+
+section Strings
+open Umya.Num Umya.CellXml Umya.InternC01
+
+variable (F : NumFmt)
+
+theorem flatten_onSheet : ∀ (cells : List (List (Cell F.Num))) (i : Nat) (s : List (Cell F.Num))
+    (g : List (Cell F.Num) → List (Cell F.Num)), cells[i]? = some s →
+    ∃ A B, cells.flatten = A ++ s ++ B ∧ (onSheet F cells i g).flatten = A ++ g s ++ B
+  | [], i, s, g, h => by cases h
+  | x :: xs, 0, s, g, h => by
+    have : x = s := by simpa using h
+    subst this
+    exact ⟨[], xs.flatten, by simp, by simp [onSheet]⟩
+  | x :: xs, i + 1, s, g, h => by
+    have h' : xs[i]? = some s := by simpa using h
+    obtain ⟨A, B, e1, e2⟩ := flatten_onSheet xs i s g h'
+    refine ⟨x ++ A, B, by simp [e1], ?_⟩
+    have : onSheet F (x :: xs) (i + 1) g = x :: onSheet F xs i g := by
+      simp [onSheet, h']
+    rw [this]; simp [e2]
+
+/-- **The shared-string table when a cell is created.**  The table a save writes is: the items the cells register
+    (`regOf`: a written cell with a non-empty value of type `s`), in writing order, interned one after the other —
+    first occurrence wins (`writeBook_sst`).  With the new cell `c` written after the items `pre` and before the items
+    `post`: the new table is `internList [] (pre ++ [new] ++ post)` against `internList [] (pre ++ post)`.  So:
+    the strings first used before the new cell keep their indices (both tables start with the table of `pre`); if the
+    new string occurs in `pre` nothing changes at all; otherwise it takes the next index after `pre`'s, and the strings
+    first used after it move up by one (or, if the new string also occurs later, the ones between move up and the rest
+    stay) — indices of OTHER cells can move.  What does not move: (set) the new table holds exactly the old items plus
+    the new one, both without duplicates — it grows by at most that one string —; (resolution) reading the written
+    file back through the NEW table gives every cell its own value: the reloaded sheets are `normalize` of the edited
+    ones, i.e. (by `C04_edit_local_book_create`) the old reloaded cells plus the new one. -/
+theorem C04_edit_create_strings (hF : F.Sound) (light : Bool) (cells : List (List (Cell F.Num))) (i n : Nat)
+    (c : Cell F.Num) (s : List (Cell F.Num)) (hs : cells[i]? = some s)
+    (hok : ∀ s ∈ cells, ∀ c ∈ s, cellOK F c = true) (hc : cellOK F c = true) :
+    ∃ b0 b1 pre post,
+      writeBook F light cells = some b0 ∧ writeBook F light (onSheet F cells i (createSheet F n c)) = some b1 ∧
+      itemsOf F cells = pre ++ post ∧
+      itemsOf F (onSheet F cells i (createSheet F n c)) = pre ++ (regOf F c).toList ++ post ∧
+      b0.sst = (internList [] (pre ++ post)).map siOf ∧
+      b1.sst = (internList [] (pre ++ (regOf F c).toList ++ post)).map siOf ∧
+      (∃ e0 e1, internList [] (pre ++ post) = internList [] pre ++ e0 ∧
+        internList [] (pre ++ (regOf F c).toList ++ post) = internList [] pre ++ e1) ∧
+      (∀ it, it ∈ internList [] (pre ++ (regOf F c).toList ++ post) ↔ it ∈ internList [] (pre ++ post) ∨ regOf F c = some it) ∧
+      (internList [] (pre ++ post)).Nodup ∧ (internList [] (pre ++ (regOf F c).toList ++ post)).Nodup ∧
+      (b1.sst.length < 18446744073709551616 →
+        readBook F b1 = some (normalize F (onSheet F cells i (createSheet F n c)))) := by
+  have hok' : ∀ s' ∈ onSheet F cells i (createSheet F n c), ∀ c' ∈ s', cellOK F c' = true := by
+    intro s' hs' c' hc'
+    unfold onSheet at hs'
+    rw [hs] at hs'
+    rcases List.mem_or_eq_of_mem_set hs' with h1 | h1
+    · exact hok s' h1 c' hc'
+    · subst h1
+      have hsm : s ∈ cells := List.mem_of_getElem? hs
+      unfold createSheet at hc'
+      rcases List.mem_append.1 hc' with h2 | h2
+      · exact hok s hsm c' (List.mem_of_mem_take h2)
+      · rcases List.mem_cons.1 h2 with h3 | h3
+        · rw [h3]; exact hc
+        · exact hok s hsm c' (List.mem_of_mem_drop h3)
+  obtain ⟨b0, hw0, _⟩ := writeBook_readBook F hF light cells hok
+  obtain ⟨b1, hw1, hr1⟩ := writeBook_readBook F hF light _ hok'
+  obtain ⟨A, B, eA, eB⟩ := flatten_onSheet F cells i s (createSheet F n c) hs
+  let pre := (A ++ s.take n).filterMap (regOf F)
+  let post := (s.drop n ++ B).filterMap (regOf F)
+  have i0 : itemsOf F cells = pre ++ post := by
+    show cells.flatten.filterMap (regOf F) = _
+    rw [eA, ← List.filterMap_append]
+    congr 1
+    rw [List.append_assoc, List.append_assoc, ← List.append_assoc (s.take n), List.take_append_drop]
+  have i1 : itemsOf F (onSheet F cells i (createSheet F n c)) = pre ++ (regOf F c).toList ++ post := by
+    show (onSheet F cells i (createSheet F n c)).flatten.filterMap (regOf F) = _
+    rw [eB]
+    simp only [createSheet, pre, post, List.filterMap_append, List.filterMap_cons, List.append_assoc]
+    cases regOf F c <;> simp
+  refine ⟨b0, b1, pre, post, hw0, hw1, i0, i1, ?_, ?_, ?_, ?_, ?_, ?_, hr1⟩
+  · rw [writeBook_sst F light cells b0 hw0, i0]
+  · rw [writeBook_sst F light _ b1 hw1, i1]
+  · obtain ⟨e0, h0⟩ := internList_prefix post (internList [] pre)
+    obtain ⟨e1, h1⟩ := internList_prefix ((regOf F c).toList ++ post) (internList [] pre)
+    exact ⟨e0, e1, by rw [internList_append]; exact h0, by rw [List.append_assoc, internList_append]; exact h1⟩
+  · intro it
+    simp only [internList_mem, List.mem_append, List.not_mem_nil, false_or, Option.mem_toList]
+    constructor
+    · rintro ((h | h) | h)
+      · exact Or.inl (Or.inl h)
+      · exact Or.inr h
+      · exact Or.inl (Or.inr h)
+    · rintro ((h | h) | h)
+      · exact Or.inl (Or.inl h)
+      · exact Or.inr h
+      · exact Or.inl (Or.inr h)
+  · exact internList_nodup _ _ List.nodup_nil
+  · exact internList_nodup _ _ List.nodup_nil
+
+end Strings
 
 /-! ## a style edit that interns a NEW xf -/
 
@@ -233,6 +349,80 @@ example : ∀ c : Cell natFmt.Num, blankUnstyled natFmt { c with raw := .empty, 
 /-- the delete theorem's hypotheses on a whole projection -/
 example : ∃ b : BookP natFmt Umya.Thm.C06.exZ, BookP.WF id rfl Umya.Thm.C06.exFmt_sound natFmt natFmt_sound demoEnv b ∧ b.cells ≠ [] :=
   ⟨demoBook, demoBook_WF demoEnv demoEnv_ok, by decide⟩
+
+/-- `C04_edit_create_strings`: a text cell created between two text cells — the string first used after it moves from
+    index 1 to index 2, the one before keeps index 0; the same string again adds nothing -/
+example :
+    let a : Cell natFmt.Num := { col := 1, row := 1, raw := .str ['a'] }
+    let b : Cell natFmt.Num := { col := 3, row := 1, raw := .str ['b'] }
+    let x : Cell natFmt.Num := { col := 2, row := 1, raw := .str ['x'] }
+    let a' : Cell natFmt.Num := { col := 2, row := 1, raw := .str ['a'] }
+    cellOK natFmt x = true ∧ regOf natFmt x = some { text := some ['x'] } ∧
+    internList [] (itemsOf natFmt [[a, b]]) = [{ text := some ['a'] }, { text := some ['b'] }] ∧
+    internList [] (itemsOf natFmt (onSheet natFmt [[a, b]] 0 (createSheet natFmt 1 x)))
+      = [{ text := some ['a'] }, { text := some ['x'] }, { text := some ['b'] }] ∧
+    internList [] (itemsOf natFmt (onSheet natFmt [[a, b]] 0 (createSheet natFmt 1 a')))
+      = [{ text := some ['a'] }, { text := some ['b'] }] := by decide
+
+/-- `C04_edit_new_style_local`, the renumbering of the docstring (styles of `Umya/Thm/C05.lean`, well-formed by
+    `wf_list`): cells styled [sA, sA, sC] are written with xf [2, 2, 3]; a NEW style sD on the second cell gives
+    [2, 3, 4] — the third cell's index moves up —; on [sA, sB, sC] ↦ [2, 3, 4], replacing sB (used by that cell only)
+    by sA gives [2, 2, 3] — the third cell's index moves down -/
+example : (Umya.Style.setAll id (Umya.Style.initSheet id) [Umya.Thm.C05.sA, Umya.Thm.C05.sA, Umya.Thm.C05.sC]).2 = [2, 2, 3] ∧
+    (Umya.Style.setAll id (Umya.Style.initSheet id) ([Umya.Thm.C05.sA, Umya.Thm.C05.sA, Umya.Thm.C05.sC].set 1 Umya.Thm.C05.sD)).2 = [2, 3, 4] ∧
+    (Umya.Style.setAll id (Umya.Style.initSheet id) [Umya.Thm.C05.sA, Umya.Thm.C05.sB, Umya.Thm.C05.sC]).2 = [2, 3, 4] ∧
+    (Umya.Style.setAll id (Umya.Style.initSheet id) ([Umya.Thm.C05.sA, Umya.Thm.C05.sB, Umya.Thm.C05.sC].set 1 Umya.Thm.C05.sA)).2 = [2, 2, 3] := by
+  decide
+
+/-- the hypotheses of `C04_edit_local_book_delete` on a whole projection: `demoBook` with the cell at row 1, column 1
+    of its first sheet removed -/
+theorem demoBook_delete_WF :
+    BookP.WF id rfl Umya.Thm.C06.exFmt_sound natFmt natFmt_sound demoEnv (demoBook.deleteCell natFmt 0 (1, 1)) := by
+  obtain ⟨h1, _, h3⟩ := demoBook_WF demoEnv demoEnv_ok
+  refine ⟨h1, ⟨by decide, ?_⟩, h3⟩
+  intro b hb
+  have : ∀ b ∈ writeBook natFmt false (onSheet natFmt demo 0 (deleteSheet natFmt (1, 1))),
+      b.sst.length < 18446744073709551616 := by decide
+  exact this b hb
+
+/-- … and of `C04_edit_local_book_create`: a text cell created at row 2, column 5 of the first sheet (no cell there;
+    the row has no record yet: one is made; column 5 neither: one is made) -/
+def exCreated : Cell natFmt.Num := { col := 5, row := 2, raw := .str "CREATED<&>".toList }
+example : lookup natFmt demo[0] (exCreated.row, exCreated.col) = none ∧ blankUnstyled natFmt exCreated = false ∧
+    ((demoSheet1.withRow 2 0).withCol 5 0).rows.length = demoSheet1.rows.length + 1 ∧
+    ((demoSheet1.withRow 2 0).withCol 5 0).cols.length = demoSheet1.cols.length + 1 := by decide
+
+theorem demoBook_create_WF :
+    BookP.WF id rfl Umya.Thm.C06.exFmt_sound natFmt natFmt_sound demoEnv (demoBook.createCell natFmt 0 1 exCreated 0 0) := by
+  obtain ⟨h1, _, hsheets, rest⟩ := demoBook_WF demoEnv demoEnv_ok
+  refine ⟨h1, ⟨by decide, ?_⟩, ?_, rest⟩
+  · intro b hb
+    have : ∀ b ∈ writeBook natFmt false (onSheet natFmt demo 0 (createSheet natFmt 1 exCreated)),
+        b.sst.length < 18446744073709551616 := by decide
+    exact this b hb
+  · intro s hs
+    have hs' : s = (demoSheet1.withRow 2 0).withCol 5 0 ∨ s = demoSheet2 := by
+      simpa [BookP.createCell, onIdx, demoBook, exCreated] using hs
+    rcases hs' with rfl | rfl
+    · obtain ⟨a1, a2, a3, a4, a5, a6, a7, a8, a9, a10, a11, hr, hc⟩ := demoSheet1_WF demoEnv demoEnv_ok
+      refine ⟨a1, a2, a3, a4, a5, a6, a7, a8, a9, a10, a11, ?_, ?_⟩
+      · intro p hp
+        have hp' : p ∈ demoSheet1.rows ∨ p = ({ num := 2 }, 0) := by
+          have : p ∈ demoSheet1.rows ++ [({ num := 2 }, 0)] := hp
+          simpa using this
+        rcases hp' with h | rfl
+        · exact hr p h
+        · refine ⟨⟨by decide, ?_, ?_⟩, by decide⟩
+          · intro t ht; cases ht
+          · intro t ht; cases ht
+      · intro p hp
+        have hp' : p ∈ demoSheet1.cols ∨ p = ({ width := Umya.StyleCodec.defaultWidth }, 5, 5, 0) := by
+          have : p ∈ demoSheet1.cols ++ [({ width := Umya.StyleCodec.defaultWidth }, 5, 5, 0)] := hp
+          simpa using this
+        rcases hp' with h | rfl
+        · exact hc p h
+        · exact ⟨rfl, by decide, by decide, by decide⟩
+    · exact hsheets demoSheet2 (by simp [demoBook])
 
 end DemoEdit
 
